@@ -146,24 +146,48 @@ def _tolerated_like_ok(fn, call, value):
         return "it has no case label of its own (it takes the default arm)"
     if 0 not in labels:
         return "there is no case label for CIF_OK"
-    cur, hops = labels[value], 0
-    ok_block = labels[0]
-    ok_targets = {x for x in fn.blocks[ok_block].succs if x is not None}
-    while hops < 6:
-        if cur == ok_block:
-            return None
-        blk = fn.blocks[cur]
-        if blk.roots:
-            from ..facts import show as _show
-            return "its arm executes `%s`" % _show(blk.roots[0])[:50]
-        nxt = [x for x in blk.succs if x is not None]
-        if len(nxt) != 1:
-            return "its arm branches"
-        if nxt[0] in ok_targets and not fn.blocks[ok_block].roots:
-            return None
-        cur = nxt[0]
-        hops += 1
+    def landing(bid):
+        """the first block with statements (or a branch) reached from a label through empty fall-through / break blocks"""
+        hops = 0
+        while hops < 8:
+            blk = fn.blocks[bid]
+            nxt = [x for x in blk.succs if x is not None]
+            if blk.roots or len(nxt) != 1:
+                return bid
+            bid = nxt[0]
+            hops += 1
+        return bid
+    here, there = landing(labels[value]), landing(labels[0])
+    if here == there:
+        return None
+    blk = fn.blocks[here]
+    if blk.roots and here in (labels[value],) + tuple(cfgq.reach(fn, [labels[value]], barrier_blocks=[there])):
+        from ..facts import show as _show
+        return "its arm executes `%s`" % _show(blk.roots[0])[:50]
     return "its arm does not join the arm of CIF_OK"
+
+
+def tolerated_codes(prog, rule):
+    """The table entries that claim a code is `handled: listed as a tolerable case label` are claims about the code: the
+    case label of that code shares the arm of CIF_OK in the switch on the call's result.  Returns the number of call sites."""
+    codes, _ = c20.result_codes(prog, prog.info)
+    n = 0
+    for (fname, callee, c), reason in sorted(CANNOT_OCCUR.items()):
+        if not reason.startswith("handled: listed as a tolerable case label") or not prog.has_fn(fname) or c not in codes:
+            continue
+        fn = prog.fn(fname)
+        for (b, i, r, call) in fn.calls_to(callee):
+            n += 1
+            key = "%s -> %s : %s" % (fname, callee, c)
+            why = _tolerated_like_ok(fn, call, codes[c])
+            if why is None:
+                rule.ok(key, "tolerated: its case label falls into the arm of CIF_OK")
+            else:
+                rule.violation(fn.file, fname, call.get("l"), "tolerated-code-not-tolerated:" + key,
+                               "%s returns %s for a loop header made up of duplicate names only (each already reported and "
+                               "accepted); the parser is meant to tolerate it like CIF_OK, but %s: the parse aborts although "
+                               "every error was accepted" % (callee, c, why))
+    return n
 
 
 def run(prog, chk):
